@@ -44,6 +44,11 @@ def cases(tier, seed):
         defs = defs + ops[::3] + cse[::3]
     else:
         defs = defs + ops + cse
+    # several different programs generated one after the other in ONE process, then each compiled and run: generation must
+    # not depend on what was generated before (caches keyed too coarsely, one-shot generators shared between programs)
+    seq = [d for d in ops if any(t in d["name"] for t in ("neg-", "div-by", "pow", "inv-"))][:4] + defs[5:7]
+    yield {"path": "sequence", "defs": seq, "seed": seed, "cse": True}
+    yield {"path": "sequence", "defs": list(reversed(seq)), "seed": seed, "cse": True}
     for i, d in enumerate(defs):
         yield {"def": d, "cse": True, "seed": seed, "path": "ekf"}
         if tier == "thorough" or i % 3 == 0:
@@ -63,7 +68,62 @@ def points_for(d, seed, count=8):
     return pts
 
 
+def eval_sequence(case):
+    """generate all programs first (same process), only then build and run each from the text generated in step 1"""
+    import os
+    from fv import core
+    fails, n = [], 0
+    with cppharness.Scratch() as sc:
+        gen = []
+        for i, d in enumerate(case["defs"]):
+            os.makedirs(os.path.join(sc.dir, f"p{i}", "generated"), exist_ok=True)
+            with core.quiet():
+                try:
+                    r, header, source = cppharness.generate(d, {"cse": case["cse"], "innovation_filtering": None}, os.path.join(sc.dir, f"p{i}"), "gen")
+                except Exception as e:
+                    fails.append({"key": "generate-failed:sequence", "what": f"{d['name']} (#{i + 1} in one process): {e!r}"[:300]})
+                    continue
+            gen.append((i, d, header, source))
+        for i, d, header, source in gen:
+            ref = RefEKF(d)
+            pts = points_for(d, case["seed"], 3)
+            pdir = os.path.join(sc.dir, f"p{i}")
+            drv = os.path.join(pdir, "driver.cpp")
+            open(drv, "w").write(cppharness.ekf_driver(d, "gen"))
+            exe = os.path.join(pdir, "drv")
+            ok, err = cppharness.gxx(pdir, [source, drv], exe)
+            if not ok:
+                fails.append({"key": "compile-failed:sequence", "what": f"{d['name']} generated as #{i + 1} in one process does not compile: "
+                              f"{cppharness.first_error(err)}"})
+                continue
+            rc, out, err = cppharness.run(exe, cppharness.ekf_input(d, pts))
+            res = cppharness.parse(out)
+            for p, pt in enumerate(pts):
+                full = ref.env(pt["env"])
+                try:
+                    fx, G = ref.fx(full), ref.G(full)
+                    hs = {k: ref.hx(k, full) for k in ref.h}
+                except R.Singular:
+                    continue
+                exp = {("model", s): fx[j] for j, s in enumerate(ref.st)}
+                exp.update({("G", str(a), str(b)): G[a][b] for a in range(len(ref.st)) for b in range(len(ref.st))})
+                for k, hx in hs.items():
+                    exp.update({("h", k, r): hx[j] for j, r in enumerate(ref.readings(k))})
+                for key, v in exp.items():
+                    n += 1
+                    g = res.get(p, {}).get(key)
+                    if g is None or not pyimpl.close(g, v, REL):
+                        if not any(f["key"] == "value-mismatch:sequence" for f in fails):
+                            fails.append({"key": "value-mismatch:sequence", "what": f"{d['name']} generated as #{i + 1} of {len(gen)} programs in one "
+                                          f"process: {key} = {g!r}, expected {float(v)!r} at {pt['env']}"})
+                        break
+    return {"n": n, "fails": fails[:3], "sig": "sequence:" + case["defs"][0]["name"], "outcomes": ["compiled-and-ran", "sequence"],
+            "sample": {"path": "sequence", "programs_generated_in_one_process": [d["name"] for d in case["defs"]]}}
+
+
 def eval_case(case):
+    if case["path"] == "sequence":
+        return eval_sequence(case)
     d = case["def"]
     ref = RefEKF(d)
     fails = []
@@ -145,4 +205,4 @@ def eval_case(case):
 
 
 REQUIRED_OUTCOMES = ["compiled-and-ran", "control=y,calibration=y", "control=y,calibration=n", "control=n,calibration=y",
-                     "control=n,calibration=n", "sensors0", "sensors1", "sensors2", "sensors3", "path-ekf", "path-model"]
+                     "control=n,calibration=n", "sequence", "sensors0", "sensors1", "sensors2", "sensors3", "path-ekf", "path-model"]
